@@ -32,7 +32,7 @@ try:
     for p in a.props:
         env = {**os.environ, "VERIF_KEEP_EVIDENCE": "1"}
         r = subprocess.run(["./check", p, "--tier", a.tier, "--seed", a.seed, "--repo", tmp], cwd="/verif", capture_output=True, text=True, env=env)
-        lines = [l for l in r.stdout.splitlines() if l.startswith(("VIOLATION", "   kind", "INCONCLUSIVE", "HELD", "KNOWN"))]
+        lines = [l for l in r.stdout.splitlines() if l.startswith(("VIOLATION", "   kind=", "INCONCLUSIVE", "HELD", "KNOWN"))]
         print(f"{p}: {'CAUGHT' if r.returncode == 1 else ('MISSED' if r.returncode == 0 else 'INCONCLUSIVE')} (exit {r.returncode})")
         for l in lines[:6]: print("    " + l[:300])
         if r.returncode not in (0, 1): print(r.stdout[-1500:], r.stderr[-1500:])
